@@ -376,6 +376,7 @@ pub fn gen_pkg_book(rng: &mut Rng) -> Spreadsheet {
     use umya_spreadsheet::structs::{Comment, Hyperlink, SheetStateValues};
     let mut book = umya_spreadsheet::new_file_empty_worksheet();
     let cmt_mode = rng.below(5);
+    let tbl_mode = rng.below(5);
     let add_comments = |ws: &mut umya_spreadsheet::structs::Worksheet, rng: &mut Rng| {
         for _ in 0..rng.range(1, 3) {
             let mut c = Comment::default();
@@ -451,6 +452,26 @@ pub fn gen_pkg_book(rng: &mut Rng) -> Spreadsheet {
         if with_comments {
             add_comments(ws, rng);
         }
+        // tables: on sheets with and without comments, one to three per sheet, names unique in the book; the table
+        // relationships sit between the vmlDrawing and the comments relationship, the part numbers run over the sheets
+        let with_tables = match tbl_mode {
+            0 | 1 => false,
+            2 => rng.chance(1, 2),
+            3 => si + 1 == n_sheets || rng.chance(1, 3),
+            _ => true,
+        };
+        if with_tables {
+            for j in 0..rng.range(1, 3) {
+                let c0 = 1 + 3 * j as u32;
+                let mut t = umya_spreadsheet::structs::Table::new(&format!("Tbl{}_{}", si, j), ((c0, 30u32), (c0 + 1, 33u32)));
+                for cn in 0..2u32 {
+                    let name = format!("col{}", cn + 1);
+                    ws.get_cell_mut((c0 + cn, 30u32)).set_value_number((cn + 1) as f64);
+                    t.add_column(umya_spreadsheet::structs::TableColumn::new(&name));
+                }
+                ws.add_table(t);
+            }
+        }
         if rng.chance(1, 3) {
             ws.set_state(if rng.chance(1, 2) { SheetStateValues::Hidden } else { SheetStateValues::VeryHidden });
         }
@@ -471,17 +492,19 @@ pub fn gen_pkg_book(rng: &mut Rng) -> Spreadsheet {
 }
 
 /// the in-memory workbook for `c02 pkgbridge`: per sheet whether it is plain (nothing BUT comments adds parts), whether
-/// it has comments (`cmt=`) and its hyperlinks; whether the workbook is plain (no macros, no custom properties); the
+/// it has comments (`cmt=`), how many tables (`tbl=`) and its hyperlinks; whether the workbook is plain (no macros, no custom properties); the
 /// cells as `model=`
 fn pkg_dump(book: &Spreadsheet) -> String {
     use umya_spreadsheet::helper::coordinate::coordinate_from_index;
     let n = book.get_sheet_count();
     let mut plain = vec![];
     let mut cmt = vec![];
+    let mut tbl: Vec<String> = vec![];
     let mut links = vec![];
     for i in 0..n {
         let ws = book.get_sheet(&i).unwrap();
-        let p = !ws.has_drawing_object() && ws.get_tables().is_empty() && ws.get_page_setup().get_object_data().is_none() && ws.get_ole_objects().get_ole_object().is_empty();
+        tbl.push(ws.get_tables().len().to_string());
+        let p = !ws.has_drawing_object() && ws.get_page_setup().get_object_data().is_none() && ws.get_ole_objects().get_ole_object().is_empty();
         plain.push(if p { "1" } else { "0" });
         cmt.push(if ws.has_comments() { "1" } else { "0" });
         let mut ls = vec![];
@@ -493,7 +516,7 @@ fn pkg_dump(book: &Spreadsheet) -> String {
         links.push(if ls.is_empty() { "~".to_string() } else { ls.join(",") });
     }
     let wbplain = !book.get_has_macros() && book.get_properties().get_custom_properties().get_custom_document_property_list().is_empty();
-    format!("plain={} wbplain={} links={} model={} cmt={}", plain.join("|"), if wbplain { 1 } else { 0 }, links.join("|"), model_dump(book), cmt.join("|"))
+    format!("plain={} wbplain={} links={} model={} cmt={} tbl={}", plain.join("|"), if wbplain { 1 } else { 0 }, links.join("|"), model_dump(book), cmt.join("|"), tbl.join("|"))
 }
 
 /// the in-memory workbook for `c02 sheetbridge`: per sheet the row table, merged ranges and hyperlinks; the sheet
@@ -669,7 +692,9 @@ pub fn run_case(out: &mut Out, header: &str) {
             out.count("pkgbridge");
             out.count(&format!("pkgbridge.sheets.{}", book.get_sheet_count()));
             let pf = d.split(' ').next().unwrap_or("").trim_start_matches("plain=").to_string();
-            let cf = d.rsplit(' ').next().unwrap_or("").trim_start_matches("cmt=").to_string();
+            let cf = d.split(' ').find(|x| x.starts_with("cmt=")).unwrap_or("").trim_start_matches("cmt=").to_string();
+            let tf = d.split(' ').find(|x| x.starts_with("tbl=")).unwrap_or("").trim_start_matches("tbl=").to_string();
+            let tcs: Vec<usize> = tf.split('|').map(|x| x.parse::<usize>().unwrap_or(0)).collect();
             let inside = pf.split('|').all(|x| x == "1") && d.contains(" wbplain=1 ");
             let n_cmt = cf.split('|').filter(|x| *x == "1").count();
             out.count(if !inside { "pkgbridge.not-plain" } else if n_cmt > 0 { "pkgbridge.with-comments" } else { "pkgbridge.plain" });
@@ -679,6 +704,21 @@ pub fn run_case(out: &mut Out, header: &str) {
                 if !cf.starts_with('1') { out.count("pkgbridge.comments.first-sheet-without"); }
                 out.count_n("pkgbridge.vml-parts", parts.iter().filter(|(n, _)| n.starts_with("xl/drawings/vmlDrawing")).count() as u64);
                 out.count_n("pkgbridge.comments-parts", parts.iter().filter(|(n, _)| n.starts_with("xl/comments")).count() as u64);
+            }
+            if inside {
+                // tables (Umya/Model/PackageNodeTbl.lean): workbooks / sheets with tables, with and without comments on the same sheet
+                let n_tbl = tcs.iter().filter(|x| **x > 0).count();
+                out.count(if n_tbl > 0 { "workbook.with-tables" } else { "workbook.without-tables" });
+                if n_tbl > 0 {
+                    out.count(&format!("pkgbridge.sheets-with-tables.{}", n_tbl));
+                    if n_tbl >= 2 { out.count("pkgbridge.tables.on-several-sheets"); }
+                    out.count_n("pkgbridge.table-parts", parts.iter().filter(|(n, _)| n.starts_with("xl/tables/table")).count() as u64);
+                    for (i, c) in cf.split('|').enumerate() {
+                        let t = tcs.get(i).copied().unwrap_or(0);
+                        out.count(match (t > 0, c == "1") { (true, true) => "pkgbridge.sheet.tables-and-comments", (true, false) => "pkgbridge.sheet.tables-only", (false, true) => "pkgbridge.sheet.comments-only", _ => "pkgbridge.sheet.neither" });
+                        if t > 0 { out.count(&format!("pkgbridge.tables-per-sheet.{}", t)); }
+                    }
+                }
             }
             out.count(if parts.iter().any(|(n, _)| n == "xl/sharedStrings.xml") { "pkgbridge.sst.present" } else { "pkgbridge.sst.absent" });
             out.count_n("pkgbridge.sheet-rels-parts", parts.iter().filter(|(n, _)| n.starts_with("xl/worksheets/_rels/")).count() as u64);
